@@ -392,7 +392,7 @@ class ExceptionInfo:
         value, and traceback, as returned by :func:`sys.exc_info`. See
         also :meth:`from_current`.
         """
-        type_str = exc_type.__name__
+        type_str = getattr(exc_type, '__qualname__', exc_type.__name__)
         type_mod = exc_type.__module__
         if type_mod not in ("__main__", "__builtin__", "exceptions", "builtins"):
             type_str = f'{type_mod}.{type_str}'
